@@ -850,7 +850,7 @@ std::vector<Vector> Matrix::Eigen_Vectors() const
 // Overloading brackets
 std::vector<double>& Matrix::operator[](const unsigned int i)
 {
-	if(i < 0 || i > (rows - 1))
+	if(i < 0 || i >= rows)
 	{
 		std::cerr << "Error in libphysica::Matrix::operator[](): Index i=" << i << " is out of bound [" << 0 << "," << (rows - 1) << "]." << std::endl;
 		std::exit(EXIT_FAILURE);
@@ -860,7 +860,7 @@ std::vector<double>& Matrix::operator[](const unsigned int i)
 }
 const std::vector<double>& Matrix::operator[](const unsigned int i) const
 {
-	if(i < 0 || i > (rows - 1))
+	if(i < 0 || i >= rows)
 	{
 		std::cerr << "Error in libphysica::Matrix::operator[](): Index i=" << i << " is out of bound [" << 0 << "," << (rows - 1) << "]." << std::endl;
 		std::exit(EXIT_FAILURE);
